@@ -37,6 +37,16 @@ func (sig Multi[T]) ToBytes() []byte {
 	return b
 }
 
+// Sizes returns the length in bytes of each signature, in the order used by ToBytes.
+// Together with ToBytes it determines the individual signatures.
+func (sig Multi[T]) Sizes() []int {
+	sizes := make([]int, 0, len(sig))
+	for _, signature := range sig {
+		sizes = append(sizes, len(signature.ToBytes()))
+	}
+	return sizes
+}
+
 // Participants returns the IDs of replicas who participated in the threshold signature.
 func (sig Multi[T]) Participants() hotstuff.IDSet {
 	return sig
